@@ -42,7 +42,7 @@ MAG_STRATS = ["smooth", "loguniform", "near_epsilon", "const", "tiny_at_b"]
 
 def plan(tier: str) -> dict:
     if tier == "quick":
-        return {"runs": 320, "wall_s": 120, "task_timeout": 300}
+        return {"runs": 1920, "wall_s": 120, "task_timeout": 300}
     return {"runs": 6400, "wall_s": 1500, "task_timeout": 600}
 
 
